@@ -94,6 +94,15 @@ package rules
 //	PI1  (preserving) `url.Init()` moved behind setStateListenerForURL
 //	PI2  (preserving) one loop `for _, u := range rl.spec.URLs { u.Init() }` in front of the carry-over loop
 //
+// Robustness pass (behaviour-preserving refactorings /verif/preserving/C09/r1..r4, all exit 0 now):
+//
+//	c09_util.go: canon (identity of variables across helper boundaries: single call site
+//	parameters, single-definition locals, helper results), c09loop (range / index / three-clause
+//	loops with `e := s[i]`), c09callee (calls through method values), c09results (named results
+//	with bare return). R-C09-2/3 run with flow inlining over the reach of Handle / reload;
+//	R-C09-3 resolves reload, R-C09-4 the MQTT acquire method and R-C09-6 the policy comparison
+//	by role. Mutants re-applied on top of the r3 and r4 shapes are still reported (12 tried).
+//
 // Not caught by design (arithmetic, see NotDecided): `tokens > maxTokens`, a wrong wait
 // computation, a dropped `rl.cycle = cycle` on the permit path, a wrong refresh period in the MQTT policies.
 //
@@ -249,61 +258,71 @@ func c09resolve(f *flow.Func, e ast.Expr) ast.Expr {
 		if !ok {
 			return ast.Unparen(e)
 		}
-		obj, ok := c09obj(f, id).(*types.Var)
-		if !ok || obj.IsField() || obj.Pkg() == nil || obj.Parent() == obj.Pkg().Scope() {
-			return id
-		}
-		var rhs ast.Expr
-		n := 0
-		isObj := func(x ast.Expr) bool {
-			xid, ok := ast.Unparen(x).(*ast.Ident)
-			return ok && c09obj(f, xid) == obj
-		}
-		ast.Inspect(f.Body, func(x ast.Node) bool {
-			switch s := x.(type) {
-			case *ast.AssignStmt:
-				for i, l := range s.Lhs {
-					if isObj(l) {
-						n++
-						if len(s.Lhs) == len(s.Rhs) && (s.Tok == token.DEFINE || s.Tok == token.ASSIGN) {
-							rhs = s.Rhs[i]
-						} else {
-							n++
-						}
-					}
-				}
-			case *ast.ValueSpec:
-				for i, nm := range s.Names {
-					if c09obj(f, nm) == obj {
-						n++
-						if i < len(s.Values) && len(s.Values) == len(s.Names) {
-							rhs = s.Values[i]
-						} else {
-							n++
-						}
-					}
-				}
-			case *ast.IncDecStmt:
-				if isObj(s.X) {
-					n += 2
-				}
-			case *ast.RangeStmt:
-				if (s.Key != nil && isObj(s.Key)) || (s.Value != nil && isObj(s.Value)) {
-					n += 2
-				}
-			case *ast.UnaryExpr:
-				if s.Op == token.AND && isObj(s.X) {
-					n += 2
-				}
-			}
-			return true
-		})
-		if n != 1 || rhs == nil {
+		rhs := c09singleDef(f, c09obj(f, id))
+		if rhs == nil {
 			return id
 		}
 		e = rhs
 	}
 	return ast.Unparen(e)
+}
+
+// c09singleDef returns the defining expression of a local variable that is assigned exactly once
+// in f (x := r, var x = r) and never has its address taken; nil otherwise.
+func c09singleDef(f *flow.Func, o types.Object) ast.Expr {
+	obj, ok := o.(*types.Var)
+	if !ok || obj.IsField() || obj.Pkg() == nil || obj.Parent() == obj.Pkg().Scope() {
+		return nil
+	}
+	var rhs ast.Expr
+	n := 0
+	isObj := func(x ast.Expr) bool {
+		xid, ok := ast.Unparen(x).(*ast.Ident)
+		return ok && c09obj(f, xid) == obj
+	}
+	ast.Inspect(f.Body, func(x ast.Node) bool {
+		switch s := x.(type) {
+		case *ast.AssignStmt:
+			for i, l := range s.Lhs {
+				if isObj(l) {
+					n++
+					if len(s.Lhs) == len(s.Rhs) && (s.Tok == token.DEFINE || s.Tok == token.ASSIGN) {
+						rhs = s.Rhs[i]
+					} else {
+						n++
+					}
+				}
+			}
+		case *ast.ValueSpec:
+			for i, nm := range s.Names {
+				if c09obj(f, nm) == obj {
+					n++
+					if i < len(s.Values) && len(s.Values) == len(s.Names) {
+						rhs = s.Values[i]
+					} else {
+						n++
+					}
+				}
+			}
+		case *ast.IncDecStmt:
+			if isObj(s.X) {
+				n += 2
+			}
+		case *ast.RangeStmt:
+			if (s.Key != nil && isObj(s.Key)) || (s.Value != nil && isObj(s.Value)) {
+				n += 2
+			}
+		case *ast.UnaryExpr:
+			if s.Op == token.AND && isObj(s.X) {
+				n += 2
+			}
+		}
+		return true
+	})
+	if n != 1 {
+		return nil
+	}
+	return rhs
 }
 
 // c09mentions reports whether expression e mentions one of the objects.
